@@ -171,8 +171,14 @@ class Run:
             return True
         if z3.is_false(c):
             return False
+        # a FRESH solver per query: z3's incremental mode (check with assumptions on a long-lived
+        # solver) was observed to answer `unsat` on satisfiable sequence/string constraints
         try:
-            r = self.solver.check(c)
+            s = z3.Solver()
+            s.set("timeout", self.ctx.feas_timeout_ms)
+            s.add(self.solver.assertions())
+            s.add(c)
+            r = s.check()
         except z3.Z3Exception:
             return True  # could not decide: keep the path (sound)
         self.ctx.stats["feas_checks"] += 1
